@@ -395,6 +395,36 @@ theorem c10_whole_model_history_through_rekeys_partial (evs : List (Nat × LoopE
         exact List.Sublist.cons₂ _ ((ih).trans (List.sublist_append_right _ _))
     exact this.sublist hsub
 
+/-- **every history of the whole model, rounds composed the way the implementation composes them** (`wholeRun2`: between two rounds
+    an entry past its hand-over drops its successor reference — in Python the successor then *is* a table entry, or has ended; the replay
+    of every real iteration hands the model exactly that).  No hypothesis on the reached states is left: from a state in sync, for
+    every list of rounds with coherent datagram parses, either the model recorded an SPI clash or the kernel SAD after the last round
+    is exactly the two SAs of every CHILD_SA of every IKE_SA in the table, each once, and no two table entries share an SPI. -/
+theorem c10_whole_model_history_through_rekeys (evs : List (Nat × LoopEv)) (w : XWorld) (c : Ctl) (h0 : Sync2 (w, c))
+    (hstart : AllListed c.sas) (hev : ∀ x ∈ evs, EvCoherent x.2) (hclash : (wholeRun2 (w, c) evs).1.clash = false) :
+    (∀ k, k ∈ (wholeRun2 (w, c) evs).1.sad ↔ k ∈ (wholeRun2 (w, c) evs).2.sas.flatMap (fun s => keysOf s.core)) ∧
+    ((wholeRun2 (w, c) evs).2.sas.flatMap (fun s => keysOf s.core)).Nodup ∧
+    ((wholeRun2 (w, c) evs).2.sas.map (·.core.mySpi)).Nodup := by
+  rcases (wholeRun2_sync evs (w, c) ⟨h0, hstart⟩ hev).1 with h | h
+  · rw [hclash] at h; cases h
+  · refine ⟨h.sad, h.nodup, ?_⟩
+    have := h.spis
+    unfold allSpis at this
+    have hsub : ((wholeRun2 (w, c) evs).2.sas.map (·.core.mySpi)).Sublist
+        ((wholeRun2 (w, c) evs).2.sas.flatMap fun s => s.core.mySpi :: pendSpi s) := by
+      induction (wholeRun2 (w, c) evs).2.sas with
+      | nil => exact List.Sublist.slnil
+      | cons s rest ih =>
+        simp only [List.map_cons, List.flatMap_cons, List.cons_append]
+        exact List.Sublist.cons₂ _ ((ih).trans (List.sublist_append_right _ _))
+    exact this.sublist hsub
+
+/-- the empty table after start-up meets both start hypotheses -/
+theorem c10_whole_model_start3 (tape : Tape) (confs : List (Bytes × Bytes × Conf)) (threshold : Nat) :
+    Sync2 ({ tape := tape, exts := [], confs := confs, sad := [] }, { sas := [], threshold := threshold }) ∧
+    AllListed ({ sas := [], threshold := threshold } : Ctl).sas :=
+  ⟨c10_whole_model_start2 tape confs threshold, fun s hs => by simp at hs⟩
+
 /-! non-vacuity, with an IKE_SA rekey in it: the peer asks to rekey the IKE_SA of the earlier example (the CHILD_SA goes to the
    successor, the kernel is not touched), then deletes the old IKE_SA; the successor's CHILD_SA expires hard, the peer stays silent,
    the successor is removed with its SAs.  Every hypothesis holds in every prefix; the SAD has two entries up to the end and none then. -/
@@ -442,6 +472,14 @@ example : (wholeRun (exW2, exC) exEvs2).1.clash = false ∧
     (wholeRun (exW2, exC) (exEvs2.take 2)).2.sas.map (fun s => (s.core.st, s.core.children.length)) = [(stESTABLISHED, 1)] ∧
     (wholeRun (exW2, exC) (exEvs2.take 2)).1.sad.length = 2 ∧
     (wholeRun (exW2, exC) exEvs2).1.sad = [] ∧ (wholeRun (exW2, exC) exEvs2).2.sas = [] := by decide +kernel
+
+/-- the same history under `wholeRun2`: after the first round the old entry is REKEYED and has dropped its successor reference -/
+example : (wholeRun2 (exW2, exC) (exEvs2.take 1)).2.sas.map (fun s => (s.core.st, s.succ.isSome, s.core.children.length)) =
+      [(stREKEYED, false, 0), (stESTABLISHED, false, 1)] ∧
+    (wholeRun2 (exW2, exC) exEvs2).1.clash = false ∧ (wholeRun2 (exW2, exC) (exEvs2.take 2)).1.sad.length = 2 ∧
+    (wholeRun2 (exW2, exC) exEvs2).1.sad = [] ∧ (wholeRun2 (exW2, exC) exEvs2).2.sas = [] := by decide +kernel
+
+example : AllListed exC.sas := allListed_of_b _ (by decide)
 
 example : ∀ x ∈ exEvs2, EvCoherent x.2 := by
   intro x hx
